@@ -52,8 +52,19 @@ Sels ==
   \cup {<<Seg("", <<Key("c.d")>> \o t)>> : t \in {x \in Tails : Len(x) <= 1}}
   \cup {<<Seg("", <<Key("zz")>> \o t)>> : t \in {x \in Tails : Len(x) <= 1}}
 
-Init == /\ \E v \in Vals : \E sel \in Sels : cs = [doc |-> Doc(v, IF IsArr(v) THEN P1 ELSE A(<<v>>)), sel |-> sel]
+\* histories: the result of a selector is a function of (document, selector text) - not of the
+\* selectors evaluated before it in the same process (the library caches parsed selectors by text).
+\* Keys whose texts are easily confused; the harness renames them apart per case and quotes them all.
+Confusable == {"cd", "c d", "CD", "c  d", "cd_"}
+CDoc == O([a |-> O([x \in Confusable |-> CASE x = "cd" -> NumV(1) [] x = "c d" -> NumV(2) [] x = "CD" -> NumV(3)
+                                                 [] x = "c  d" -> NumV(4) [] OTHER -> NumV(5)])])
+Hist == {<<k1, k2>> : k1 \in Confusable, k2 \in Confusable}
+HSel(k) == <<Seg("", <<Key("a"), Key(k)>>)>>
+
+Init == /\ \/ \E v \in Vals : \E sel \in Sels : cs = [doc |-> Doc(v, IF IsArr(v) THEN P1 ELSE A(<<v>>)), sel |-> sel, before |-> <<>>]
+           \/ \E h \in Hist : cs = [doc |-> CDoc, sel |-> HSel(h[2]), before |-> HSel(h[1])]
         /\ res = Null /\ pc = "start"
+\* the earlier selector (cs.before) is evaluated first by the harness; it does not enter the result
 Eval == pc = "start" /\ res' = EvalSel(cs.doc, cs.sel) /\ pc' = "done" /\ UNCHANGED cs
 Next == Eval
 Spec == Init /\ [][Next]_vars
@@ -81,5 +92,6 @@ OutOfRange ==
         /\ IsErr(Reader(v, <<Idx(FALSE, <<Rng(0, Len(v.e) + 1)>>)>>))
         /\ Reader(v, <<Idx(FALSE, <<Rng(0, Len(v.e))>>)>>) = v
 
-Export == Done => PrintT(ToJson([doc |-> cs.doc, sel |-> cs.sel, res |-> res]))
+Export == Done => PrintT(ToJson([doc |-> cs.doc, sel |-> cs.sel, res |-> res, before |-> cs.before,
+                                 resbefore |-> IF cs.before = <<>> THEN Null ELSE EvalSel(cs.doc, cs.before)]))
 =============================================================================
